@@ -184,6 +184,9 @@ def _is_leaf(x):
   if isinstance(x, (type, types.FunctionType, types.BuiltinFunctionType,
                     types.MethodType)):
     return True
+  t = type(x)
+  if t.__module__ == 'fsim.stubmod' and t.__name__.endswith('_I'):
+    return True   # callable-instance stub: identified by its class
   return False
 
 
